@@ -16,6 +16,9 @@ CORR = {
     "ltx_wal_encode": "Ltx/Snapshot.v wal_pgnos + enc_run vs the REAL db.go writeLTXFromWAL (hook WriteLTXFromWALVerif) on a grid of "
                       "(previous commit, commit, page map) around the lock page",
     "ltx_db_encode": "Ltx/Snapshot.v db_pgnos + enc_run vs the REAL db.go writeLTXFromDB (hook WriteLTXFromDBVerif) for commits around the lock page",
+    "ltx_apply": "Ltx/Apply.v apply_all (level-0 files applied in order to the empty database) vs the image a REAL follow-mode "
+                 "restore (Replica.Restore with Follow: initial restore + replica.go applyLTXFile per new file) ends with, on the pages "
+                 "around the lock page (content ids = hash of the page, page-1 header bytes 18,19,24..27 masked)",
     "ltx_db_content": "Ltx/Snapshot.v db_content (content source of every page frame: database file at (pgno-1)*pageSize, or the WAL frame "
                       "of the page map) vs the bytes the REAL db.go writeLTXFromDB encoded from a database file and WAL made of self-describing pages",
 }
@@ -87,6 +90,13 @@ def run(v):
                 "(previous size exactly 1 GiB, growth across the lock page) continues through Replica.Sync, DB.Snapshot, "
                 "a TRUNCATE checkpoint (so the pages beyond the lock page are in the database FILE and the next sync is a "
                 "snapshotting one with MinTXID > 1), DB.Snapshot, DB.Compact(1) twice, DB.Close and Replica.Restore; "
+                "in the same scenario a FOLLOWER (Replica.Restore with Follow=true, 20 ms poll, own goroutine) starts "
+                "from the snapshot of the first synced size (just below the lock page in the mandatory scenario; at / "
+                "beyond it in the lock-last-page / lock-inside scenarios) and applies every later level-0 file (the "
+                "growth across the boundary, the in-chain full encoding, small ones); once its -txid sidecar reaches the "
+                "last replicated TXID its image is compared page for page (page-1 bytes 18,19,24..27 masked) with the "
+                "one-shot restore of that TXID and with the checkpointed source, lock page required empty, and on the "
+                "pages around the lock page with the model's apply_all of the level-0 files (ltx_apply); "
                 "every sparse database also carries self-describing pages in its FILE from lockPgno-3 up to its first "
                 "size, and every full encoding (first sync, in-chain snapshotting sync, level 9, level-1 from TXID 1) is "
                 "compared content-wise at those pages (one mandatory history starts 4 pages past the lock page); further scenarios run while the quick tier's 30 s "
@@ -124,7 +134,7 @@ def run(v):
                     "implementation and model disagree on %d cases (entry %s first)" % (len(other), m["entry"]),
                     {"theorem_or_correspondence": "correspondence " + CORR.get(m["entry"], m["entry"]),
                      "case_lines": C.case_with_defs(cases, m["line"]), "model_says": m["model"]},
-                    found_input=m["entry"] in ("ltx_snapshot_pgnos", "ltx_wal_pgnos", "ltx_wal_encode", "ltx_db_encode", "ltx_db_content") and not spec_bad)
+                    found_input=m["entry"] in ("ltx_snapshot_pgnos", "ltx_wal_pgnos", "ltx_wal_encode", "ltx_db_encode", "ltx_db_content", "ltx_apply") and not spec_bad)
 
 
 def replay(v, path):
